@@ -350,3 +350,124 @@ def inv_ops(d, provider_list, classes=('VCPU',), variants=('V1', 'V2', 'V3'), si
 def _strip(inv):
     return {k: inv[k] for k in ('total', 'reserved', 'min_unit', 'max_unit', 'step_size',
                                 'allocation_ratio')}
+
+
+def general_alphabet(d, nprov=2, consumers=(K(1), K(2)), custom_class=True, custom_trait=True,
+                     provider_ops=True, aggregates=True, renames=False, old_aggs=False,
+                     noop_writes=False, stale=False, reshaper_ops=True, post_allocs=True,
+                     single_inv=False):
+    """A broad write alphabet over a small world: every write route appears at least once.
+
+    Providers P1 (root) and P2 (child of P1 when created under it), classes VCPU and CUSTOM_X,
+    trait CUSTOM_T1 (+ one standard trait), aggregates A1/A2, consumers K1/K2.
+    """
+    from vp.http import R
+    out = []
+    provs = [P(i) for i in range(1, nprov + 1)]
+    if provider_ops:
+        if P(1) not in d.providers:
+            out.append(reqs.mk_rp(1, tag='POST rp P1'))
+        if P(2) not in d.providers and nprov >= 2:
+            out.append(reqs.mk_rp(2, tag='POST rp P2 root'))
+            if P(1) in d.providers:
+                out.append(reqs.mk_rp(2, parent=P(1), tag='POST rp P2 child of P1'))
+        for rp in provs:
+            out.append(reqs.del_rp(rp, tag='DELETE rp'))
+    if renames and P(1) in d.providers:
+        cur = d.providers[P(1)]['name']
+        out.append(R('PUT', '/resource_providers/' + P(1),
+                     {'name': 'rp1' if cur != 'rp1' else 'rp1-renamed'}, tag='PUT rp rename'))
+        if P(2) in d.providers and d.providers[P(2)]['parent'] is None:
+            out.append(R('PUT', '/resource_providers/' + P(2),
+                         {'name': d.providers[P(2)]['name'], 'parent_provider_uuid': P(1)},
+                         tag='PUT rp re-parent'))
+    if custom_class:
+        out.append(reqs.post_class(CUSTOM_CLASS, tag='POST class'))
+        out.append(reqs.del_class(CUSTOM_CLASS, tag='DELETE class custom'))
+        out.append(reqs.del_class('VCPU', tag='DELETE class standard'))
+    if custom_trait:
+        out.append(reqs.put_trait(CUSTOM_TRAIT, tag='PUT trait'))
+        out.append(reqs.del_trait(CUSTOM_TRAIT, tag='DELETE trait custom'))
+        out.append(reqs.del_trait(STD_TRAIT, tag='DELETE trait standard'))
+    four = {'total': 4}
+    for rp in provs:
+        if rp not in d.providers:
+            continue
+        g = gen_of(d, rp)
+        have = {rc for (r, rc) in d.inventories if r == rp}
+        out.append(reqs.put_invs(rp, g, {'VCPU': four}, tag='PUT inventories {VCPU}'))
+        if custom_class:
+            out.append(reqs.put_invs(rp, g, {'VCPU': four, CUSTOM_CLASS: four},
+                                     tag='PUT inventories {VCPU,CUSTOM_X}'))
+            out.append(reqs.put_invs(rp, g, {CUSTOM_CLASS: four},
+                                     tag='PUT inventories {CUSTOM_X}'))
+        out.append(reqs.put_invs(rp, g, {}, tag='PUT inventories {}'))
+        if stale:
+            out.append(reqs.put_invs(rp, g + 1, {'VCPU': four}, tag='PUT inventories stale'))
+        for rc in ('VCPU',) + ((CUSTOM_CLASS,) if custom_class else ()):
+            out.append(reqs.del_inv(rp, rc, tag='DELETE inventory %s' % rc))
+            if single_inv:
+                if rc in have:
+                    out.append(reqs.put_inv(rp, rc, g, {'total': 5}, tag='PUT inventory ' + rc))
+                else:
+                    out.append(reqs.post_inv(rp, rc, {'total': 5}, tag='POST inventory ' + rc))
+        out.append(reqs.del_invs(rp, tag='DELETE inventories'))
+        cur_traits = sorted(t for (r, t) in d.rp_traits if r == rp)
+        if custom_trait:
+            out.append(reqs.put_traits(rp, g, [CUSTOM_TRAIT], tag='PUT rp traits [custom]'))
+        out.append(reqs.put_traits(rp, g, [STD_TRAIT], tag='PUT rp traits [std]'))
+        out.append(reqs.put_traits(rp, g, [], tag='PUT rp traits []'))
+        if noop_writes:
+            out.append(reqs.put_traits(rp, g, cur_traits, tag='PUT rp traits same'))
+        if stale:
+            out.append(reqs.put_traits(rp, g + 1, [STD_TRAIT], tag='PUT rp traits stale'))
+        out.append(reqs.del_traits(rp, tag='DELETE rp traits'))
+        if aggregates:
+            out.append(reqs.put_aggs(rp, g, [A(1)], tag='PUT aggregates [A1]'))
+            out.append(reqs.put_aggs(rp, g, [A(1), A(2)], tag='PUT aggregates [A1,A2]'))
+            out.append(reqs.put_aggs(rp, g, [], tag='PUT aggregates []'))
+            if old_aggs:
+                out.append(reqs.put_aggs(rp, g, [A(2)], mv='1.18', tag='PUT aggregates@1.18 [A2]'))
+            if stale:
+                out.append(reqs.put_aggs(rp, g + 1, [A(1)], tag='PUT aggregates stale'))
+    for k in consumers:
+        cg = cgen_of(d, k)
+        out.append(reqs.put_alloc(k, {P(1): {'VCPU': 1}}, cgen=cg, tag='PUT alloc P1:VCPU'))
+        out.append(reqs.put_alloc(k, {P(1): {'VCPU': 3}}, cgen=cg, tag='PUT alloc P1:VCPU*3'))
+        if custom_class:
+            out.append(reqs.put_alloc(k, {P(1): {CUSTOM_CLASS: 1}}, cgen=cg,
+                                      tag='PUT alloc P1:CUSTOM_X'))
+        if nprov >= 2:
+            out.append(reqs.put_alloc(k, {P(2): {'VCPU': 1}}, cgen=cg, tag='PUT alloc P2:VCPU'))
+            out.append(reqs.put_alloc(k, {P(1): {'VCPU': 1}, P(2): {'VCPU': 1}}, cgen=cg,
+                                      tag='PUT alloc P1+P2'))
+        out.append(reqs.put_alloc(k, {}, cgen=cg, tag='PUT alloc {}'))
+        if stale:
+            out.append(reqs.put_alloc(k, {P(1): {'VCPU': 1}}, cgen=cgen_of(d, k, stale=True),
+                                      tag='PUT alloc stale consumer generation'))
+        out.append(reqs.del_alloc(k, tag='DELETE alloc'))
+    if post_allocs and len(consumers) >= 2:
+        k1, k2 = consumers[0], consumers[1]
+        out.append(reqs.post_allocs(
+            {k1: {'allocs': {P(1): {'VCPU': 1}}, 'cgen': cgen_of(d, k1)},
+             k2: {'allocs': {P(1): {'VCPU': 1}}, 'cgen': cgen_of(d, k2)}},
+            tag='POST allocs K1,K2 on P1'))
+        out.append(reqs.post_allocs(
+            {k1: {'allocs': {}, 'cgen': cgen_of(d, k1)},
+             k2: {'allocs': {P(1): {'VCPU': 2}}, 'cgen': cgen_of(d, k2)}},
+            tag='POST allocs K1 empty, K2 on P1'))
+    if reshaper_ops and P(1) in d.providers and custom_class:
+        # remove VCPU from P1, moving its consumers' VCPU onto CUSTOM_X
+        moved = {}
+        for k in consumers:
+            al = consumer_allocs(d, k)
+            if P(1) in al and 'VCPU' in al[P(1)]:
+                new = {rp: dict(r) for rp, r in al.items()}
+                amt = new[P(1)].pop('VCPU')
+                new[P(1)][CUSTOM_CLASS] = new[P(1)].get(CUSTOM_CLASS, 0) + amt
+                moved[k] = {'allocs': new, 'cgen': cgen_of(d, k)}
+        out.append(reqs.reshaper({P(1): (gen_of(d, P(1)), {CUSTOM_CLASS: four})}, moved,
+                                 tag='reshaper VCPU->CUSTOM_X on P1'))
+        out.append(reqs.reshaper({P(1): (gen_of(d, P(1)), {CUSTOM_CLASS: four})}, {},
+                                 tag='reshaper drop VCPU, move nobody'))
+    return out
